@@ -53,6 +53,7 @@ struct Ghost {
     lost_ok: BTreeSet<usize>,               // tags discarded by a reset / failed send
     dropped: BTreeSet<usize>,               // tags for which no link was returned
     last_attempt: BTreeMap<u64, (u64, bool)>, // conn id -> (time of last reconnect attempt, established before?)
+    torn_at: BTreeMap<u64, u64>, // conn id -> time of the tear-down that left the link down (cleared on rejoin)
 }
 
 struct SysComp {
@@ -794,11 +795,19 @@ impl SysComp {
             }
             // "connected again within 30 s once the path delivers and the receiver answers" needs a
             // registration attempt at least every 30 s while the link is down and past its grace
-            if kind == Kind::Hk && pre[i].timed_out && !attempt {
-                let la = pre[i].last_attempt;
+            // (stated on `down`, not on the code's own timed-out verdict: a link that is not registered
+            // must keep trying whatever it has heard since the tear-down)
+            if torn {
+                g.torn_at.insert(c.conn_id, now);
+            }
+            if c.connected {
+                g.torn_at.remove(&c.conn_id);
+            }
+            if kind == Kind::Hk && !pre[i].connected && !c.connected && !attempt {
+                let la = pre[i].last_attempt.max(g.torn_at.get(&c.conn_id).copied().unwrap_or(0));
                 let past_grace = pre[i].established != 0 || now > w.links[i].reconnection.startup_grace_deadline_ms;
                 if la != 0 && now.saturating_sub(la) >= 30_000 && past_grace {
-                    mon.fail("C08", "retry-gap-exceeds-30s", format!("link {} is down, its last registration attempt was {} ms ago and this tick makes none: a repaired path cannot be connected again within 30 s", c.conn_id, now - la));
+                    mon.fail("C08", "retry-gap-exceeds-30s", format!("link {} is down, its tear-down / last registration attempt was {} ms ago and this tick makes none (timed_out verdict: {}): a repaired path cannot be connected again within 30 s", c.conn_id, now - la, pre[i].timed_out));
                 }
             }
             // retries forever: a timed-out link whose last attempt is >= 120 s old must retry now
@@ -1099,7 +1108,8 @@ fn timed_out_with(p: &Pre, c: &SrtlaConnection, now: u64, cto: u64, was_reset: b
         if p.established == 0 && now < c.reconnection.startup_grace_deadline_ms {
             return false;
         }
-        return c.last_received.is_none_or(|lr| now.saturating_sub(lr) >= cto);
+        // a link that is not registered is due for (re-)registration whatever it has heard
+        return true;
     }
     c.last_received.is_some_and(|lr| now.saturating_sub(lr) >= cto)
 }
@@ -1142,7 +1152,7 @@ fn gen_case(rng: &mut Rng, idx: usize) -> Vec<String> {
             if rng.chance(3, 4) { 1 } else { 0 },
             rng.pick(&[32i32, 32, 4, 1]),
             rng.pick(&[3000u64, 3000, 1000, 500]),
-            rng.pick(&[5000u64, 5000, 5000, 2000, 10000])
+            rng.pick(&[5000u64, 5000, 5000, 2000, 10000, 60000, 30000, 1000])
         )
     };
     if rng.chance(2, 3) {
@@ -1203,6 +1213,40 @@ fn gen_case(rng: &mut Rng, idx: usize) -> Vec<String> {
             ops.push(format!("uplink {now} {} {}", i + 1, hexs(&SRTLA_TYPE_REG3.to_be_bytes())));
             up[i] = true;
         }
+    }
+    // ---------------- straggler outage (C08): a link torn down by REG_ERR hears one late datagram and
+    // then nothing; under a long configured timeout it must still keep re-registering
+    if idx % 13 == 5 && n >= 2 && up.iter().all(|u| *u) {
+        ops.push(format!(
+            "cfg classic={} quality=1 stall=1 minif=32 ceil=3000 cto={}",
+            rng.below(2),
+            rng.pick(&[60000u64, 60000, 45000, 30000])
+        ));
+        now += rng.below(20);
+        // one client datagram so that the selection pass refreshes every link's timeout copy
+        ops.push(format!("client {now} {}", hexs(&data_packet(77, false, 32, 8_000_000, rng))));
+        now += 15;
+        ops.push(format!("flush {now}"));
+        let j = rng.below(n as u64) as usize;
+        now += rng.below(200);
+        ops.push(format!("uplink {now} {} {}", j + 1, hexs(&SRTLA_TYPE_REG_ERR.to_be_bytes())));
+        let stragglers = rng.range(1, 3);
+        for _ in 0..stragglers {
+            now += rng.range(20, 400);
+            ops.push(format!("uplink {now} {} {}", j + 1, hexs(&create_keepalive_packet(now - 30).to_vec())));
+        }
+        let ticks = rng.range(33, 46);
+        for _ in 0..ticks {
+            now += 1000;
+            ops.push(format!("hk {now}"));
+            for k in 0..n {
+                if k != j && rng.chance(9, 10) {
+                    ops.push(format!("uplink {} {} {}", now + 5, k + 1, hexs(&create_keepalive_packet(now).to_vec())));
+                }
+            }
+        }
+        now += 10;
+        ops.push(format!("uplink {now} {} {}", j + 1, hexs(&SRTLA_TYPE_REG3.to_be_bytes())));
     }
     // ---------------- data phase
     let steps = rng.range(40, 260);
